@@ -886,6 +886,7 @@ impl Monitors {
         self.check_c02_bijection(step, &views, &snap, obs);
         self.check_c05(world, step, &snap, obs);
         self.check_c06_live(world, step, obs);
+        self.check_rest_executions(world, step, &snap, obs);
         self.check_c07(world, step, &views, &snap, &delta, obs);
         self.check_c08(step, &views, &views_before, &snap, &delta, obs);
         self.check_c14_c03(world, step, &views_before, &views, &delta, obs);
@@ -1415,6 +1416,58 @@ impl Monitors {
                     step,
                     "the same task is executing on two connected workers",
                     format!("{t} live on {ws:?}"),
+                );
+            }
+        }
+    }
+
+    /// When no message is in flight in either direction and the scheduler has nothing to do,
+    /// every execution that is live on a connected worker is one the server considers running
+    /// there. Otherwise the worker was never told to stop it (C08 for canceled tasks) or the
+    /// server forgot an execution that can later run next to a re-execution (C06).
+    fn check_rest_executions(&mut self, world: &World, step: u32, snap: &CoreSnapshot, obs: &mut Obs) {
+        if world.server.scheduling_requested()
+            || world
+                .workers
+                .values()
+                .any(|w| !w.q.is_empty() || !w.r.is_empty() || !w.alive)
+        {
+            return;
+        }
+        obs.class("message-rest");
+        let l = world.launch.borrow();
+        for e in l.live.values() {
+            if l.dead_workers.contains(&e.worker)
+                || !world.workers.get(&e.worker).is_some_and(|w| w.alive)
+                || !snap.workers.iter().any(|w| w.id == e.worker)
+                || e.resolver.is_none()
+            {
+                continue;
+            }
+            let ts = snap.tasks.iter().find(|t| t.id == e.task);
+            let ok = match ts.map(|t| &t.state) {
+                Some(TaskStateSnap::Running { worker_id, .. }) => *worker_id == e.worker,
+                Some(TaskStateSnap::RunningMultiNode(ws)) => ws.contains(&e.worker),
+                _ => false,
+            };
+            if !ok {
+                let canceled = self.canceled_tasks.contains(&e.task);
+                obs.alarm(
+                    if canceled { "C08" } else { "C06" },
+                    step,
+                    if canceled {
+                        "execution of a canceled task continues on a connected worker with no message in flight (worker never told to stop)"
+                    } else {
+                        "execution continues on a connected worker although the server does not consider the task running there and no message is in flight"
+                    },
+                    format!(
+                        "{} instance {} on w{} (started in step {}); server state {:?}",
+                        e.task,
+                        e.instance,
+                        e.worker,
+                        e.start_step,
+                        ts.map(|t| &t.state)
+                    ),
                 );
             }
         }
@@ -2060,6 +2113,55 @@ impl Monitors {
         }
         for (t, w, _) in &snap.redirects {
             refs.push((*t, format!("redirect to w{w}")));
+        }
+        // dependency bookkeeping: the scheduler's list is the submitted one, and the counter of
+        // a waiting task is the number of its dependencies that are still unfinished
+        for t in &snap.tasks {
+            if let Some(m) = self.tasks.get(&t.id) {
+                let declared: BTreeSet<TaskId> = m.deps.iter().copied().collect();
+                let held: BTreeSet<TaskId> = t.deps.iter().copied().collect();
+                // (dependencies on tasks that have already finished may be left out, e.g. when the
+                //  task is re-created from the journal)
+                let extra = held.difference(&declared).next().is_some();
+                let missing_live = declared
+                    .difference(&held)
+                    .any(|d| known.contains(d));
+                if extra || missing_live {
+                    obs.alarm(
+                        "C03",
+                        step,
+                        "scheduler's dependency list of a task differs from the submitted one",
+                        format!(
+                            "{} ({:?}): submitted {declared:?}, scheduler {held:?}; states of the submitted dependencies: {:?}",
+                            t.id,
+                            t.state,
+                            declared
+                                .iter()
+                                .map(|d| snap.tasks.iter().find(|x| x.id == *d).map(|x| format!("{:?}", x.state)))
+                                .collect::<Vec<_>>()
+                        ),
+                    );
+                }
+            }
+            if let TaskStateSnap::Waiting { unfinished_deps } = &t.state {
+                let held: BTreeSet<TaskId> = t.deps.iter().copied().collect();
+                let actual = held.iter().filter(|d| known.contains(d)).count() as u32;
+                if *unfinished_deps > actual {
+                    obs.alarm(
+                        "C02",
+                        step,
+                        "task waits for more dependencies than it has unfinished ones",
+                        format!("{}: counter {unfinished_deps}, unfinished dependencies {actual} of {held:?}", t.id),
+                    );
+                } else if *unfinished_deps < actual {
+                    obs.alarm(
+                        "C03",
+                        step,
+                        "dependency counter of a waiting task is lower than its number of unfinished dependencies",
+                        format!("{}: counter {unfinished_deps}, unfinished dependencies {actual} of {held:?}", t.id),
+                    );
+                }
+            }
         }
         for (t, place) in refs {
             if !known.contains(&t) {
